@@ -72,6 +72,13 @@ def handler : Handler S where
             "obs sink eq=1"])
         else (s, ["obs bad-op"])
       | _, _, _, _, _ => (s, ["obs bad-op"])
+    | "conc" :: rest =>
+      -- k well-formed requests with an accepting consumer: each is acknowledged and delivered once, as sent
+      -- (`C15_consumer_once`, `C15_success_iff_*`, `C15_payload_partial` per request); their overlap in time is
+      -- outside the model (monitored)
+      match kvNat rest "k" with
+      | some k => ({ s with cur := none }, [s!"obs conc sent={k} acked={k} delivered={k} matched={k}"])
+      | none => (s, ["obs bad-op"])
     | "raw" :: rest =>
       match kv rest "tr", kv rest "kind", (kv rest "auth").bind parseAuth, (kv rest "out").bind parseOutcome with
       | some "http", some kind, some auth, some out =>
@@ -112,6 +119,13 @@ def handler : Handler S where
       match kvNat rest "code", kvNat rest "http", (kv rest "retry").bind parseOptNat with
       | some c, some h, some r => { s with wire := some (c, h, r) }
       | _, _, _ => { s with fails := "sig=C15/harness/unparsable-wire" :: s.fails }
+    | _ :: "conc" :: rest =>
+      match kvNat rest "sent", kvNat rest "acked", kvNat rest "delivered", kvNat rest "matched" with
+      | some k, some a, some d, some m =>
+        if a ≠ k then { s with fails := s!"sig=C15/concurrency/well-formed-request-not-acknowledged sent={k} acked={a}" :: s.fails }
+        else if d ≠ k ∨ m ≠ k then { s with fails := s!"sig=C15/concurrency/payloads-at-consumer-differ-from-sent sent={k} delivered={d} matched={m}" :: s.fails }
+        else s
+      | _, _, _, _ => { s with fails := "sig=C15/harness/unparsable-conc" :: s.fails }
     | _ :: "sink" :: rest => { s with eq := kv rest "eq" == some "1" }
     | _ :: "verdict" :: v :: rest =>
       match s.cur, s.wire, parseVerdict v, kvNat rest "calls" with
